@@ -354,7 +354,7 @@ def gen_waveset_case(rng, depth):
     e = c02.gen_tree(rng, rng.randint(0, depth), 'source' if rng.random() < 0.7 else 'unitless')
     if rng.random() < 0.4 and c02.static_kind(e) == 'source':
         # the redshift assigned on the result (a composite, or an operand that already carries one)
-        e = {'setz': {'z': q(rng.choice([F(1), F(3), F(1, 2), F(-1, 2), F(1, 4), F(7)])),
+        e = {'setz': {'z': q(rng.choice([F(1), F(3), F(1, 2), F(-1, 2), F(1, 4), F(7), F(-3, 2), F(-2)])),     # 1+z < 0: the set must be refused
                       'ztype': rng.choice([None, 'wavelength_only', 'conserve_flux']),
                       'pre_waveset': rng.random() < 0.5}, 'e': e}
     O.fill_ss(e, with_ss=True)
